@@ -126,6 +126,7 @@ func newSimWith(seed int64, scratch string, profile string, nvals, nusers int, t
 		// flavour: the gas price of the public network (250 Gfons) and its minimum gas; with gas limits of
 		// 10^8 and more the fee gas x price no longer fits 64 bits (it is a 256-bit amount everywhere)
 		g.Params.GasPrice, g.Params.MinTrxGas = "250000000000", 4000
+		g.Params.MaxTrxGas = 25000000 // the public network's value; some gas limits below exceed it (nothing enforces it)
 		s.bigGas = true
 	}
 	if g.Params.MaxValidatorCnt < int64(nv) { // the genesis validators satisfy the validator limits
